@@ -111,6 +111,32 @@ def run(ctx):
         ctx.ob("size|invalid-size-rejections", len(inv) >= 2 and all(doomed(br, s) for s in inv), f"{len(inv)} InvalidSize site(s) (too many groups; trailing zero group), all doomed", br.loc())
         zero = [sb for sb in br.switches() if any(a.kind == "bin" and a.what in ("Eq", "Ne") and 0 in (br.const_value(a.extra["a"]), br.const_value(a.extra["b"])) for a in br.switch_info(sb)["atoms"])]
         ctx.ob("size|trailing-zero-test-present", len(zero) >= 2, f"comparisons with 0 at bb{zero} (byte == 0 && shift != 0)", br.loc())
+        # shape-independent form of the canonical-length rule: after *every* read_byte site, Ok(size) is reachable (without reading another
+        # byte) only through "this byte != 0" or "this is the first group (position == 0)"
+        reads = call_blocks(br, r"Decoder(<[^>]*>)?(>)?::read_byte$")
+        oks = set(br.ok_exits())
+        pass_e = []
+        for sb in br.switches():
+            si = br.switch_info(sb)
+            if si["kind"] != "bool":
+                continue
+            for a in si["atoms"]:
+                if a.kind == "bin" and a.what in ("Eq", "Ne"):
+                    va, vb = br.const_value(a.extra["a"]), br.const_value(a.extra["b"])
+                    if 0 not in (va, vb):
+                        continue
+                    other = a.extra["b"] if va == 0 else a.extra["a"]
+                    from_byte = any(x.kind == "call" and x.what.endswith("::read_byte") for x in br.origins(other))
+                    is_zero_edge = si["true"] if a.what == "Eq" else si["false"]
+                    non_zero_edge = si["false"] if a.what == "Eq" else si["true"]
+                    pass_e.append((sb, non_zero_edge if from_byte else is_zero_edge))
+        ctx.ob("size|read-sites", len(reads) >= 1 and bool(oks), f"{len(reads)} read_byte site(s), {len(oks)} Ok exit(s) in read_size", br.loc())
+        for r in reads:
+            region = br.reach(tuple(br.succs(r)), blocked_edges=pass_e, blocked_blocks=reads)
+            bad = region & oks
+            ctx.ob(f"size|canonical-last-group|read@{reads.index(r)}", not bad,
+                   "after this read_byte, Ok(size) is reachable only through `byte != 0` or `first group`" if not bad else
+                   "after this read_byte, Ok(size) is reachable WITHOUT the trailing-zero-group test: a padded length prefix would be accepted", br.loc(r))
 
     ctx.rule("T2: decode_payload passes read_and_check_payload_prefix and check_end on the way to Ok; the prefix mismatch arm is doomed; string "
              "decoding goes through a checked UTF-8 conversion; no *_unchecked UTF-8/slice access on decode paths (T1)")
